@@ -436,19 +436,38 @@ def _record_traces(ck, seed, count, nev, nregs=5):
     return traces
 
 
-def _validate(ctx, ck, traces):
-    fd, path = tempfile.mkstemp(prefix="vf-c02-traces-", suffix=".json")
-    with os.fdopen(fd, "w") as f:
-        json.dump([[{k: v for k, v in e.items() if k in ("op", "i", "j", "dst", "k", "b", "res")} for e in tr] for tr in traces], f)
+def _validate_many(ctx, jobs):
+    """jobs: [(curve key, traces)]; the TLC runs (single-threaded each) go concurrently.
+    Returns per job (rejected indices, {index: events matched})"""
+    paths = []
+    for ck, traces in jobs:
+        fd, path = tempfile.mkstemp(prefix="vf-c02-traces-", suffix=".json")
+        with os.fdopen(fd, "w") as f:
+            json.dump([[{k: v for k, v in e.items() if k in ("op", "i", "j", "dst", "k", "b", "res")} for e in tr] for tr in traces], f)
+        paths.append(path)
     try:
-        r = ctx.tlc("Trace_EC", "Trace_EC_" + ck, workers=1, env={"TRACE_FILE": path}, count=False, timeout=1500)
+        rs = tlc_many(ctx, [dict(module="Trace_EC", cfg="Trace_EC_" + ck, workers=1, env={"TRACE_FILE": p}, count=False, timeout=3000)
+                            for (ck, _), p in zip(jobs, paths)], threads=6)
     finally:
-        os.unlink(path)
-    rej = [x for x in r.records if x.get("k") == "rejected"]
-    if len(rej) != 1 or rej[0]["n"] != len(traces):
-        raise MachineryError("trace run gave no verdict: %s" % r.raw_tail[-5:])
-    _validate.matched = {i: m for i, m in enumerate(rej[0]["matched"]) if m >= 0}
-    return sorted(i - 1 for i in rej[0]["ids"])
+        for p in paths:
+            os.unlink(p)
+    out = []
+    for (ck, traces), r in zip(jobs, rs):
+        rej = [x for x in r.records if x.get("k") == "rejected"]
+        if len(rej) != 1 or rej[0]["n"] != len(traces):
+            raise MachineryError("trace run gave no verdict: %s" % r.raw_tail[-5:])
+        out.append((sorted(i - 1 for i in rej[0]["ids"]), {i: m for i, m in enumerate(rej[0]["matched"]) if m >= 0}))
+    return out
+
+
+def _validate(ctx, ck, traces):
+    (rej, matched), = _validate_many(ctx, [(ck, traces)])
+    return rej
+
+
+def _rec_unit(args):
+    ck, seed, count, nev = args
+    return ck, _record_traces(ck, seed, count, nev)
 
 
 # ----------------------------------------------------------------------------- run
@@ -552,7 +571,7 @@ def run(ctx):
             ctx.case(("beh", hashlib.blake2b(json.dumps(acts, sort_keys=True).encode(), digest_size=8).hexdigest()), 0)
         ctx.log("register machine, toy p=83: %d behaviours, %d steps compared with the points TLC computed" % (len(behs), ns))
         # 4b. production curves, symbolic
-        nsim = 3 if q else 60
+        nsim = 3 if q else 40
         r = ctx.tlc("ECRegs", "Sim_ECRegs", workers=4, simulate="num=%d" % nsim, depth=40, seed=ctx.seed + 2, timeout=1200)
         _count_sim(ctx, r)
         behs = [x["acts"] for x in r.records if x.get("k") == "beh"]
@@ -563,9 +582,10 @@ def run(ctx):
     if _stage(ctx, "traces"):
         plan = [("p251a", 150, 40), ("p251b", 150, 40)] if q else [("p251a", 1500, 40), ("p251b", 1500, 40), ("p1019", 300, 60)]
         first = None
-        for ck, cnt, nev in plan:
-            traces = _record_traces(ck, ctx.seed * 1000003 + len(ck) * 7 + cnt, cnt, nev)
-            rej = _validate(ctx, ck, traces)
+        recorded = pmap(_rec_unit, [(ck, ctx.seed * 1000003 + len(ck) * 7 + cnt + 31 * part, min(300, cnt - 300 * part), nev)
+                                    for ck, cnt, nev in plan for part in range((cnt + 299) // 300)], chunk=1)
+        verdicts = _validate_many(ctx, recorded)
+        for (ck, traces), (rej, matched) in zip(recorded, verdicts):
             ctx.traces += len(traces) - len(rej)
             ctx.case(None, sum(len(t) for t in traces))
             ctx.action("trace.events", sum(len(t) for t in traces))
@@ -573,15 +593,16 @@ def run(ctx):
                 first = (ck, traces)
                 ctx.sample({"trace": {"curve": ck, "events": traces[0][:4]}})
             for i in rej:
-                last = traces[i][-1]
+                m = matched.get(i, 0)
+                last = traces[i][min(m, len(traces[i]) - 1)]       # the first event TLC could not match
                 if "exc" in last and last["op"] in ("neg", "sub"):
                     key = ("C02|neg|operand=%s|got=%s" if last["op"] == "neg" else "C02|sub|rhs=%s|got=%s") % (last["operand"], last["exc"])
                 elif "exc" in last:
                     key = "C02|trace|op=%s|got=%s" % (last["op"], last["exc"])
                 else:
-                    key = "C02|trace|rejected|ops=%s" % ",".join(sorted({e["op"] for e in traces[i]}))
-                ctx.fail(key, "recorded run on curve %s is not a behaviour of EC.tla: last event %s" % (ck, last),
-                         {"curve": ck, "trace": traces[i]})
+                    key = "C02|trace|op=%s|got=wrong" % last["op"]
+                ctx.fail(key, "recorded run on curve %s is not a behaviour of EC.tla: event %d is the first TLC cannot match: %s" % (ck, m, last),
+                         {"curve": ck, "event_index": m, "trace": traces[i]})
             ctx.log("traces %s: %d recorded, %d rejected by TLC" % (ck, len(traces), len(rej)))
         # binding self-test: one corrupted coordinate must be rejected, its neighbours accepted
         ck, traces = first
@@ -665,3 +686,46 @@ def _production(ctx, behs, nregs):
         ctx.assumptions.append("libcrypto not loadable here: the OpenSSL backend was NOT exercised")
     ctx.log("register machine, production curves: %d behaviours x %s: %d steps, every backend equal to eval(poly)*G of the reference" % (
         len(behs), sorted(set(ctx.extra["backends_exercised"])), total))
+
+
+# ----------------------------------------------------------------------------- single-case replay
+
+def replay(ctx, obj):
+    """./check C02 --replay FILE: re-execute the recorded failing case on the current tree.  The expected value is
+    the one TLC printed when the case was recorded (stored in the file)."""
+    d = obj.get("detail") or {}
+    print(json.dumps({k: v for k, v in obj.items() if k != "detail"}, indent=1))
+    ck = d.get("curve")
+    if ck in CURVES and "op" in d and "expected" in d:
+        g = drv.toy_generator(CURVES[ck], d.get("blind", 0), d.get("lift", 0) if isinstance(d.get("lift"), int) else 0)
+        p = CURVES[ck][0]
+        lifts = d.get("lifts") or [d.get("lift") if isinstance(d.get("lift"), list) else [0, 0]] * 2
+        P = drv.lift_point(g, d["P"], tuple(lifts[0])) if "P" in d else None
+        Q = drv.lift_point(g, d["Q"], tuple(lifts[1])) if "Q" in d else None
+        op, k = d["op"], d.get("k")
+        f = {"add": lambda: P + Q, "sub": lambda: P - Q, "neg": lambda: -P, "mul": lambda: g.multiply(P, k),
+             "bgm": lambda: g * k, "raw_mul": lambda: g.raw_mul(k), "multiply|P=generator_object": lambda: g.multiply(g, k),
+             "-G": lambda: -g, "G-G": lambda: g - g, "2G-G": lambda: g.add(g, g) - g}.get(op)
+        if f is not None:
+            got = drv.call(f, p)
+            print("re-executed %s on curve %s: expected %s, now %s" % (op, ck, d["expected"], got))
+            if got != d["expected"]:
+                ctx.fail(obj["key"], obj["what"], d)
+            return
+    if "behaviour" in d and d.get("backend", "").startswith("toy-"):
+        ck = d["backend"][4:]
+        g = drv.toy_generator(CURVES[ck], 0)
+        outs = drv.run_behaviours(g, [d["behaviour"]], 3, 45, 78)
+        got = outs[0][-1]
+        print("re-executed the behaviour on %s: last step expected %s, now %s" % (ck, d["expected"], got))
+        if got != d["expected"]:
+            ctx.fail(obj["key"], obj["what"], d)
+        return
+    if "trace" in d and ck in CURVES:
+        rej = _validate(ctx, ck, [d["trace"]])
+        print("the recorded trace is %s by Trace_EC (this validates the stored log, it does not re-run pycoin)" % ("rejected" if rej else "accepted"))
+        if rej:
+            ctx.fail(obj["key"], obj["what"], d)
+        return
+    print(json.dumps(d, indent=1)[:4000])
+    print("(no single-case replayer for this record kind; the record above is the failing case)")
